@@ -150,13 +150,34 @@ def replay_writer(ctx, behs, extra):
     ncalls, drift = 0, 0
     for b in behs:
         o = obs[b["h"]]
+        accepted = []          # byte values the real Writer has accepted so far (from the observed return counts)
+        errored = False
         for ci, (exp, got) in enumerate(zip(b["calls"], o["rets"])):
             ncalls += 1
             want = dict(nn=exp["nn"], err=exp["err"], buffered=exp["buffered"], avail=b["B"] - exp["buffered"],
                         wire=[x % BYTEMOD for x in exp["wire"]])
             have = dict(nn=got["nn"], err=got["err"], buffered=got["buffered"], avail=got["avail"], wire=got["wire"])
+            if exp["op"] == "w":
+                accepted += [(exp["first"] + i) % BYTEMOD for i in range(max(0, got["nn"]))]
+            errored = errored or bool(got["err"])
             bad = [k for k in ("nn", "err", "wire", "buffered", "avail") if want[k] != have[k]]
             if bad:
+                # What the statement of C05 is about: return values, order/intactness of the wire, nothing lost.
+                # A difference only in WHEN bytes reach the wire or in Buffered()/Available() is a different
+                # (still correct) buffering policy: model drift, not a violation.
+                stream_bad = []
+                if want["nn"] != have["nn"] or want["err"] != have["err"]:
+                    stream_bad.append("nn" if want["nn"] != have["nn"] else "err")
+                if have["wire"] != accepted[:len(have["wire"])]:
+                    stream_bad.append("wire")
+                if not errored and have["buffered"] + len(have["wire"]) != len(accepted):
+                    stream_bad.append("buffered")
+                if not errored and exp["op"] == "f" and have["wire"] != accepted:
+                    stream_bad.append("wire")
+                if not stream_bad:
+                    drift += 1
+                    continue
+                bad = stream_bad + [k for k in bad if k not in stream_bad]
                 faulty = any(s["e"] or s["k"] < u["len"] for s, u in zip(exp["script"], got["u"]))
                 sig = "writer-replay %s differs after %s (%s underlying writer)" % (
                     bad[0], "Write" if exp["op"] == "w" else "Flush", "faulty" if faulty else "healthy")
@@ -167,8 +188,8 @@ def replay_writer(ctx, behs, extra):
             if len(got["u"]) != len(exp["script"]):
                 drift += 1
     if drift:
-        ctx.note("model-drift BufWriter.tla: %d calls made a different number of underlying writes than the model "
-                 "(all observable results equal)" % drift)
+        ctx.note("model-drift BufWriter.tla: %d calls differ from the model only in buffering policy (number of underlying "
+                 "writes, Buffered()/Available(), when bytes reach the wire); return values and stream equal" % drift)
         ctx.cov["drift"] = True
     return len(behs), ncalls
 
@@ -253,9 +274,12 @@ def random_writer_traces(ctx, groups):
             for bi, bl in enumerate(blocks):
                 if matched < pos + len(bl):
                     e = bl[matched - pos]
-                    sig = "writer-trace %s event rejected" % e["ev"]
-                    ctx.violation(sig, "B=%d history %d: event %s is not a step of BufWriter.tla" % (b, bl[0]["h"], json.dumps(e)[:300]),
-                                  dict(prefix=bl[max(0, matched - pos - 12):matched - pos + 1]))
+                    # BufWriterTrace.tla is implementation-shaped (level B: every underlying write, Buffered(),
+                    # Available()): a mismatch is model drift, not a verdict on C05.  The stream-level verdicts
+                    # come from the replay above and from the end-to-end runs (ConnStreamTrace.tla, level A).
+                    ctx.note("model-drift BufWriter.tla: B=%d history %d: event %s is not a step of the model" % (
+                        b, bl[0]["h"], json.dumps(e)[:200]))
+                    ctx.cov["drift"] = True
                     del blocks[bi]
                     break
                 pos += len(bl)
